@@ -37,6 +37,7 @@ PROPS["C20"] = {
         lane("TestRoundtrip", "roundtrip", 100000, 400000, shards=16),
         lane("TestParse", "parse", 100000, 400000, shards=16, must_classes=["digits>=2^128", "digits<2^128", "non-digit"]),
         lane("TestHash", "hash", 5000, 50000, shards=4),
+        lane("TestHashOrder", "hashorder", 150, 1500, shards=4, must_classes=["regroup:join-inputs", "regroup:namespace-takes-input", "regroup:join-all"]),
         lane("TestPattern", "pattern", 150, 1500, shards=4, must_classes=["position:array", "position:entity", "position:request"]),
     ],
 }
@@ -254,6 +255,7 @@ PROPS["C07"] = {
         lane("TestAccept", "accept", 400, 2500, shards=16),
         lane("TestGarbage", "garbage", 1500, 8000, shards=16, must_classes=["kind:mutated", "kind:bcl", "kind:bytes"]),
         lane("TestSemantic", "semantic", 400, 2500, shards=16, must_classes=["semantic:cross-file-cycle", "semantic:unknown-type", "semantic:required-and-optional", "semantic-at:oneof", "semantic-at:request", "semantic-at:inline-object", "semantic-at:entity-event", "semantic:field:unknown-enum"]),
+        lane("TestAttributes", "attributes", 1600, 16000, shards=16, must_classes=["depth:2", "depth:3", "block:method", "block:entity", "block:field", "block:service", "block:topic"]),
         fuzz("FuzzCompile"),
     ],
 }
